@@ -146,7 +146,9 @@ from pyvc import core as _C
 from pyvc.core import Val as _Val, coerce as _coerce, fresh as _fresh
 
 MTask = T.Rec('MTask', uid=T.Str, target_state=OStr, exit_code=T.Opt(T.Int))
-REG.optional_keys['MTask'] = {'target_state', 'exit_code'}
+REG.optional_keys['MTask'] = {'target_state'}
+# a result dict carries 'exit_code' but it may be None; older workers omit it
+REG.ambiguous_keys['MTask'] = {'exit_code'}
 MTaskL = T.List(MTask)
 MAdv = T.Rec('MAdv', uid=T.Str, state=OStr, target_state=OStr)
 
